@@ -6,17 +6,25 @@
 // props leaf_generate_layout: C16       (same token sequence in 7 layouts: same emitted text but for the hash line, same error with positions carried along)
 // props leaf_hash_readback: C15         (get_grammar_hash against a direct reading of the statement; header of every emitted text reads back sha256(source))
 // props leaf_emitted_compiles: C05      (rustc --emit=metadata on the emitted module, payload types without any derive)
+// props leaf_emitted_structure: C06     (type section and parse signature of the emitted text, parsed back, against the declarations: names, order, Box, `_` omitted, pub)
+// props leaf_emitted_attributes: C12    (attribute lines before each emitted type, byte for byte and in order; each attribute text occurs exactly once in the emitted text)
+// props leaf_emitted_payload_types: C13 (payload type tokens in the terminal enum and in every field of that terminal, against the declaration)
 // covers leaf_generate_total: fn generate
 // covers leaf_generate_repeatable: fn generate
 // covers leaf_generate_layout: fn generate
 // covers leaf_hash_readback: fn get_grammar_hash
 // covers leaf_emitted_compiles: fn generate
+// covers leaf_emitted_structure: fn generate
+// covers leaf_emitted_attributes: fn generate
+// covers leaf_emitted_payload_types: fn generate
 // bound: family = 70 hand-written token sequences (every error kind with several simultaneous instances, LALR-not-SLR, LR(1)-not-LALR, ambiguous,
 //        nullable, unreachable, unproductive, attribute and payload-type shapes, the generator's own helper names as user names) + every grammar
 //        over nonterminals {S, A} and terminals {$X, $Y} whose right-hand sides have length <= 1 (930 files; length <= 2 sampled 1 in 97 in the
 //        quick tier, 1 in 7 in the thorough tier) + the example files of the repository. Layouts: 7. get_grammar_hash: every text of <= 4 lines
 //        (<= 5 thorough) over a 10-line alphabet, LF and CRLF, with and without final terminator. Compile check: 5 grammar shapes x 34 namings
 //        (one internal name at a time on every user-chosen position, then all at once) + the valid grammars of the family.
+//        Emitted types: the accepted files of the family + 9 payload type expressions (unit, paths, generics nested <= 3) on 3 use sites + 8 attribute
+//        texts (non-ASCII, the three bracket kinds nested, 300 deep, quotes) on struct / enum / terminal declarations, 0..3 per declaration.
 #[cfg(test)]
 mod __vx_leafcheck {
     use crate::{generate, get_grammar_hash, KikiErr, RustSrc, RustSrcRef};
@@ -548,4 +556,350 @@ mod __vx_leafcheck {
         }
         println!("LEAFCHECK leaf=emitted-module-compiles cases={}", total);
     }
+    // ------------------------------------------------------------------ C06 / C12 / C13 ------------------------------------------------------------------
+    #[derive(Clone, Debug, PartialEq)]
+    enum Fs { Unit, Named(Vec<(String, Vec<String>)>), Tuple(Vec<Vec<String>>) }
+    #[derive(Clone, Debug, PartialEq)]
+    struct Item { attrs: Vec<String>, kind: String, name: String, fieldset: Fs, variants: Vec<(String, Fs)>, pub_fields: bool }
+
+    /// words, `::`, and every other visible character on its own
+    fn rust_tokens(s: &str) -> Vec<String> {
+        let cs: Vec<char> = s.chars().collect();
+        let mut out = vec![];
+        let mut i = 0;
+        while i < cs.len() {
+            let c = cs[i];
+            if c.is_whitespace() { i += 1; }
+            else if c.is_alphanumeric() || c == '_' { let mut j = i; while j < cs.len() && (cs[j].is_alphanumeric() || cs[j] == '_') { j += 1; } out.push(cs[i..j].iter().collect()); i = j; }
+            else if c == ':' && cs.get(i + 1) == Some(&':') { out.push("::".to_string()); i += 2; }
+            else { out.push(c.to_string()); i += 1; }
+        }
+        out
+    }
+
+    /// the declarations of a compact token list (an independent reading of the Kiki surface syntax, for files this module wrote itself),
+    /// turned into the type definitions the statement of C06 asks for
+    fn expected_items(toks: &[String]) -> Option<(String, Vec<Item>)> {
+        let mut start = None;
+        let mut pending_attrs: Vec<String> = vec![];
+        let mut raw: Vec<(Vec<String>, String, String, Vec<String>)> = vec![];   // attrs, kind, name, body tokens
+        let mut i = 0;
+        while i < toks.len() {
+            let t = toks[i].as_str();
+            if t.starts_with("#[") { pending_attrs.push(t.to_string()); i += 1; continue; }
+            match t {
+                "start" => { start = Some(toks.get(i + 1)?.clone()); i += 2; }
+                "struct" | "enum" | "terminal" => {
+                    let name = toks.get(i + 1)?.clone();
+                    let mut j = i + 2;
+                    let mut body = vec![];
+                    let opener = toks.get(j).map(|s| s.as_str());
+                    if opener == Some("{") || (t == "struct" && opener == Some("(")) {
+                        let mut depth = 0i32;
+                        loop {
+                            let u = toks.get(j)?;
+                            if u == "{" || u == "(" { depth += 1; }
+                            if u == "}" || u == ")" { depth -= 1; }
+                            body.push(u.clone());
+                            j += 1;
+                            if depth == 0 { break; }
+                        }
+                    }
+                    raw.push((std::mem::take(&mut pending_attrs), t.to_string(), name, body));
+                    i = j;
+                }
+                _ => return None,
+            }
+        }
+        // payload types of the terminals
+        let mut payload: Vec<(String, Vec<String>)> = vec![];
+        for (_, kind, _, body) in &raw {
+            if kind != "terminal" { continue; }
+            let inner = &body[1..body.len() - 1];
+            let mut k = 0;
+            while k < inner.len() {
+                let name = inner[k].strip_prefix('$')?.to_string();
+                if inner.get(k + 1).map(|s| s.as_str()) != Some(":") { return None; }
+                let mut e = k + 2;
+                while e < inner.len() && !inner[e].starts_with('$') { e += 1; }
+                payload.push((name, inner[k + 2..e].to_vec()));
+                k = e;
+            }
+        }
+        let type_of = |sym: &str| -> Option<Vec<String>> {
+            match sym.strip_prefix('$') {
+                Some(tn) => payload.iter().find(|p| p.0 == tn).map(|p| p.1.clone()),
+                None => Some(vec!["Box".to_string(), "<".to_string(), sym.to_string(), ">".to_string()]),
+            }
+        };
+        // fieldset tokens (with their brackets, possibly empty) -> emitted fieldset
+        let fieldset = |b: &[String]| -> Option<Fs> {
+            if b.is_empty() { return Some(Fs::Unit); }
+            let inner = &b[1..b.len() - 1];
+            if b[0] == "{" {
+                let mut fs = vec![];
+                let mut k = 0;
+                while k < inner.len() {
+                    if inner.get(k + 1).map(|s| s.as_str()) != Some(":") { return None; }
+                    if inner[k] != "_" { fs.push((inner[k].clone(), type_of(inner.get(k + 2)?)?)); }
+                    k += 3;
+                }
+                Some(if fs.is_empty() { Fs::Unit } else { Fs::Named(fs) })
+            } else {
+                let mut fs = vec![];
+                let mut k = 0;
+                while k < inner.len() {
+                    if inner[k] == "_" { k += 3; continue; }
+                    fs.push(type_of(&inner[k])?);
+                    k += 1;
+                }
+                Some(if fs.is_empty() { Fs::Unit } else { Fs::Tuple(fs) })
+            }
+        };
+        let mut terminal_item = None;
+        let mut items = vec![];
+        for (attrs, kind, name, body) in &raw {
+            match kind.as_str() {
+                "terminal" => {
+                    let variants = payload.iter().map(|(n, t)| (n.clone(), Fs::Tuple(vec![t.clone()]))).collect();
+                    terminal_item = Some(Item { attrs: attrs.clone(), kind: "enum".to_string(), name: name.clone(), fieldset: Fs::Unit, variants, pub_fields: false });
+                }
+                "struct" => items.push(Item { attrs: attrs.clone(), kind: "struct".to_string(), name: name.clone(), fieldset: fieldset(body)?, variants: vec![], pub_fields: true }),
+                _ => {
+                    let inner = &body[1..body.len() - 1];
+                    let mut variants = vec![];
+                    let mut k = 0;
+                    while k < inner.len() {
+                        let vname = inner[k].clone();
+                        let mut e = k + 1;
+                        if inner.get(e).map_or(false, |s| s == "{" || s == "(") {
+                            let mut depth = 0i32;
+                            loop {
+                                let u = inner.get(e)?;
+                                if u == "{" || u == "(" { depth += 1; }
+                                if u == "}" || u == ")" { depth -= 1; }
+                                e += 1;
+                                if depth == 0 { break; }
+                            }
+                        }
+                        variants.push((vname, fieldset(&inner[k + 1..e])?));
+                        k = e;
+                    }
+                    items.push(Item { attrs: attrs.clone(), kind: "enum".to_string(), name: name.clone(), fieldset: Fs::Unit, variants, pub_fields: false });
+                }
+            }
+        }
+        let mut all = vec![terminal_item?];
+        all.extend(items);
+        Some((start?, all))
+    }
+
+    /// split at top-level commas (brackets of all four kinds nest; a trailing comma adds nothing)
+    fn split_commas(toks: &[String]) -> Vec<Vec<String>> {
+        let mut out = vec![];
+        let mut cur = vec![];
+        let mut depth = 0i32;
+        for t in toks {
+            match t.as_str() { "<" | "(" | "[" | "{" => depth += 1, ">" | ")" | "]" | "}" => depth -= 1, _ => {} }
+            if t == "," && depth == 0 { out.push(std::mem::take(&mut cur)); } else { cur.push(t.clone()); }
+        }
+        if !cur.is_empty() { out.push(cur); }
+        out
+    }
+    fn close_of(toks: &[String], open: usize) -> Option<usize> {
+        let mut depth = 0i32;
+        for (k, t) in toks.iter().enumerate().skip(open) {
+            match t.as_str() { "<" | "(" | "[" | "{" => depth += 1, ">" | ")" | "]" | "}" => { depth -= 1; if depth == 0 { return Some(k); } } _ => {} }
+        }
+        None
+    }
+    /// (fieldset, whether every field is `pub`, index after it)
+    fn read_fieldset(toks: &[String], at: usize) -> Option<(Fs, bool, usize)> {
+        match toks.get(at).map(|s| s.as_str()) {
+            Some("{") => {
+                let c = close_of(toks, at)?;
+                let mut all_pub = true;
+                let mut fs = vec![];
+                for f in split_commas(&toks[at + 1..c]) {
+                    let (is_pub, f) = if f.first().map_or(false, |s| s == "pub") { (true, &f[1..]) } else { (false, &f[..]) };
+                    all_pub &= is_pub;
+                    if f.get(1).map(|s| s.as_str()) != Some(":") { return None; }
+                    fs.push((f[0].clone(), f[2..].to_vec()));
+                }
+                Some((Fs::Named(fs), all_pub, c + 1))
+            }
+            Some("(") => {
+                let c = close_of(toks, at)?;
+                let mut all_pub = true;
+                let mut fs = vec![];
+                for f in split_commas(&toks[at + 1..c]) {
+                    let (is_pub, f) = if f.first().map_or(false, |s| s == "pub") { (true, &f[1..]) } else { (false, &f[..]) };
+                    all_pub &= is_pub;
+                    fs.push(f.to_vec());
+                }
+                Some((Fs::Tuple(fs), all_pub, c + 1))
+            }
+            _ => Some((Fs::Unit, true, at)),
+        }
+    }
+    /// the type definitions found between the lint attributes and `pub fn parse`, and the tokens of the parse signature up to its body
+    fn emitted_items(out: &str) -> Option<(Vec<Item>, Vec<String>)> {
+        let lines: Vec<&str> = out.lines().collect();
+        let first = lines.iter().position(|l| !(l.starts_with("//") || l.trim().is_empty() || l.starts_with("#![")))?;
+        let parse_at = lines.iter().position(|l| l.starts_with("pub fn parse"))?;
+        let mut end = parse_at;
+        while end > first && lines[end - 1].starts_with("///") { end -= 1; }
+        let mut items = vec![];
+        let mut attrs: Vec<String> = vec![];
+        let mut k = first;
+        while k < end {
+            let l = lines[k];
+            if l.trim().is_empty() { k += 1; continue; }
+            if l.starts_with("#[") { attrs.push(l.to_string()); k += 1; continue; }
+            // one definition: from this line to the line that closes it
+            let mut text = String::new();
+            let mut depth = 0i32;
+            loop {
+                let l = *lines.get(k)?;
+                if k >= end { return None; }
+                for c in l.chars() { match c { '{' | '(' => depth += 1, '}' | ')' => depth -= 1, _ => {} } }
+                text.push_str(l);
+                text.push('\n');
+                k += 1;
+                if depth == 0 && (l.trim_end().ends_with('}') || l.trim_end().ends_with(';')) { break; }
+            }
+            let t = rust_tokens(&text);
+            if t.first().map(|s| s.as_str()) != Some("pub") { return None; }
+            let kind = t.get(1)?.clone();
+            let name = t.get(2)?.clone();
+            if kind == "struct" {
+                let (fs, all_pub, _) = read_fieldset(&t, 3)?;
+                items.push(Item { attrs: std::mem::take(&mut attrs), kind, name, fieldset: fs, variants: vec![], pub_fields: all_pub });
+            } else if kind == "enum" {
+                let c = close_of(&t, 3)?;
+                let mut variants = vec![];
+                for v in split_commas(&t[4..c]) {
+                    let (fs, _, _) = read_fieldset(&v, 1)?;
+                    variants.push((v[0].clone(), fs));
+                }
+                items.push(Item { attrs: std::mem::take(&mut attrs), kind, name, fieldset: Fs::Unit, variants, pub_fields: false });
+            } else { return None; }
+        }
+        let mut sig = String::new();
+        for l in &lines[parse_at..] { if let Some(i) = l.find('{') { sig.push_str(&l[..i]); break; } sig.push_str(l); sig.push(' '); }
+        Some((items, rust_tokens(&sig)))
+    }
+
+    const PAYLOADS: &[&str] = &["( )", "u8", "crate :: P0", "std :: string :: String", "Vec < u8 >", "Vec < ( ) >", "Map < a :: K , Vec < Option < b :: V > > >", "Box < Box < Box < T > > >", "Result < ( ) , E >"];
+    const ATTRS: &[&str] = &["#[a]", "#[derive(Clone,~Debug)]", "#[doc~=~\"\u{e9}~\u{2200}~(~[~{~}~]~)~//~x\"]", "#[cfg_attr(all(),~allow(unused))]", "#[x~=~\"#[a]\"]", "#[~spaced~~out~]", "#[k({[({[x]})]})]", "#[serde(rename~=~\"$X~start~_\")]"];
+
+    fn types_family() -> Vec<Vec<String>> {
+        let mut fam: Vec<String> = VALID.iter().map(|s| s.to_string()).collect();
+        let du: [String; 12] = DEFAULT_UPPER.map(|s| s.to_string());
+        let dl: [String; 4] = DEFAULT_LOWER.map(|s| s.to_string());
+        fam.extend(SHAPES.iter().map(|s| instantiate(s, &du, &dl)));
+        fam.extend(enumerated(1, if thorough() { 1 } else { 5 }));
+        for (i, p) in PAYLOADS.iter().enumerate() {
+            let q = PAYLOADS[(i + 4) % PAYLOADS.len()];
+            fam.push(format!("start S enum S {{ A ( $X ) B {{ x : $X _ : $Y y : $Y z : S }} C ( _ : $X $Y ) }} struct N {{ a : $Y }} struct M ( $X $Y ) terminal T {{ $X : {} $Y : {} }}", p, q));
+        }
+        let deep = format!("#[d{}x{}]", "(".repeat(300), ")".repeat(300));
+        let mut attrs: Vec<String> = ATTRS.iter().map(|s| s.to_string()).collect();
+        attrs.push(deep);
+        for i in 0..attrs.len() {
+            let a = |k: usize| attrs[(i + k) % attrs.len()].clone();
+            fam.push(format!("start S {} struct S ( E $X ) {} {} enum E {{ V W ( $X ) }} {} {} {} terminal T {{ $X : ( ) }}", a(0), a(1), a(2), a(3), a(4), a(5)));
+            fam.push(format!("start S struct S {{ e : E }} enum E {{ V }} struct U {} {} {} struct W ( $X ) terminal T {{ $X : u8 }}", a(0), a(0), a(1)));
+        }
+        fam.iter().map(|c| tokens(c)).collect()
+    }
+
+    fn strip_types(fs: &Fs, terminal_types: &[(String, Vec<String>)]) -> Fs {
+        // the structure projection: a payload type is replaced by the name of a terminal that carries it in the EMITTED terminal enum
+        let abs = |t: &Vec<String>| -> Vec<String> {
+            if t.first().map_or(false, |s| s == "Box") && t.len() == 4 { return t.clone(); }
+            match terminal_types.iter().find(|p| p.1 == *t) { Some(_) => vec!["<payload>".to_string()], None => vec!["<unknown payload>".to_string()] }
+        };
+        match fs { Fs::Unit => Fs::Unit, Fs::Named(v) => Fs::Named(v.iter().map(|(n, t)| (n.clone(), abs(t))).collect()), Fs::Tuple(v) => Fs::Tuple(v.iter().map(abs).collect()) }
+    }
+    fn structure_of(items: &[Item]) -> Vec<Item> {
+        let terminal_types: Vec<(String, Vec<String>)> = items.first().map_or(vec![], |t| t.variants.iter().map(|(n, fs)| (n.clone(), match fs { Fs::Tuple(v) if v.len() == 1 => v[0].clone(), _ => vec![] })).collect());
+        items.iter().enumerate().map(|(i, it)| Item {
+            attrs: vec![], kind: it.kind.clone(), name: it.name.clone(), pub_fields: it.pub_fields || it.kind == "enum",
+            fieldset: strip_types(&it.fieldset, &terminal_types),
+            variants: it.variants.iter().map(|(n, fs)| (n.clone(), if i == 0 { Fs::Unit } else { strip_types(fs, &terminal_types) })).collect(),
+        }).collect()
+    }
+    fn payload_sites(items: &[Item]) -> Vec<(String, Vec<String>)> {
+        let mut out = vec![];
+        let mut visit = |site: String, fs: &Fs| match fs {
+            Fs::Unit => {}
+            Fs::Named(v) => for (n, t) in v { if !(t.first().map_or(false, |s| s == "Box") && t.len() == 4) { out.push((format!("{}.{}", site, n), t.clone())); } },
+            Fs::Tuple(v) => for (k, t) in v.iter().enumerate() { if !(t.first().map_or(false, |s| s == "Box") && t.len() == 4) { out.push((format!("{}.{}", site, k), t.clone())); } },
+        };
+        for it in items {
+            visit(it.name.clone(), &it.fieldset);
+            for (n, fs) in &it.variants { visit(format!("{}::{}", it.name, n), fs); }
+        }
+        out
+    }
+
+    fn emitted_check(which: &str) {
+        let mut n = 0usize;
+        for toks in types_family() {
+            let text = render(&toks, 1).0;
+            let Some(Ok(out)) = run(&text) else { continue };
+            let Some((start, want)) = expected_items(&toks) else { panic!("the family holds a file this module cannot read: {}", text) };
+            let leaf = format!("generate(emitted-{})", which.replace(' ', "-"));
+            let Some((got, sig)) = emitted_items(&out.0) else {
+                println!("LEAFCHECK-FAIL leaf={} input={} got=an emitted text whose type section cannot be read back (definitions expected between the lint attributes and `pub fn parse`) want=the declared types", leaf, brief(&text));
+                panic!("type section unreadable");
+            };
+            let fail = |got: String, want: String| {
+                println!("LEAFCHECK-FAIL leaf={} input={} got={} want={}", leaf, brief(&text), got, want);
+                panic!("emitted types differ from the declarations");
+            };
+            match which {
+                "structure" => {
+                    let (g, w) = (structure_of(&got), structure_of(&want));
+                    if g != w {
+                        let k = g.iter().zip(w.iter()).position(|(a, b)| a != b).unwrap_or(g.len().min(w.len()));
+                        fail(format!("{} definitions, first difference: {:?}", g.len(), g.get(k)), format!("{} definitions: {:?}", w.len(), w.get(k)));
+                    }
+                    let tn = &want[0].name;
+                    let p = sig.get(4).cloned().unwrap_or_default();
+                    let want_sig = rust_tokens(&format!("pub fn parse<{p}>(src: {p}) -> Result<{start}, Option<{tn}>> where {p}: IntoIterator<Item = {tn}>"));
+                    if sig != want_sig { fail(format!("signature {}", sig.join(" ")), want_sig.join(" ")); }
+                }
+                "attributes" => {
+                    let g: Vec<(String, Vec<String>)> = got.iter().map(|i| (i.name.clone(), i.attrs.clone())).collect();
+                    let w: Vec<(String, Vec<String>)> = want.iter().map(|i| (i.name.clone(), i.attrs.clone())).collect();
+                    if g != w { fail(format!("{:?}", g), format!("{:?}", w)); }
+                    // nowhere else: every distinct attribute text occurs in the emitted text as often as it was written
+                    for it in &want { for a in &it.attrs {
+                        let written: usize = want.iter().map(|i| i.attrs.iter().filter(|b| *b == a).count()).sum();
+                        // an attribute text may be a substring of another one of the same file: count those occurrences as written too
+                        let inside: usize = want.iter().map(|i| i.attrs.iter().filter(|b| *b != a).map(|b| b.matches(a.as_str()).count()).sum::<usize>()).sum();
+                        let found = out.0.matches(a.as_str()).count();
+                        if found != written + inside { fail(format!("{} occurrences of {} in the emitted text", found, a), format!("{}", written + inside)); }
+                    } }
+                }
+                _ => {
+                    let (g, w) = (payload_sites(&got), payload_sites(&want));
+                    if g != w {
+                        let k = g.iter().zip(w.iter()).position(|(a, b)| a != b).unwrap_or(g.len().min(w.len()));
+                        fail(format!("{:?}", g.get(k)), format!("{:?}", w.get(k)));
+                    }
+                }
+            }
+            n += 1;
+        }
+        println!("LEAFCHECK leaf=generate(emitted-{}) cases={}", which.replace(' ', "-"), n);
+    }
+    #[test]
+    fn leaf_emitted_structure() { emitted_check("structure"); }
+    #[test]
+    fn leaf_emitted_attributes() { emitted_check("attributes"); }
+    #[test]
+    fn leaf_emitted_payload_types() { emitted_check("payload types"); }
 }
